@@ -9,7 +9,9 @@ tvars == <<l, backend, ttl, inCS, lostAt, told, loss>>
 \* lostAt: function client -> time of Expire (or -1); told: clients whose context was cancelled
 
 NoLoss == [c \in {1, 2} |-> -1]
-KBound == (ttl \div 3) + 700           \* one keepalive interval + scheduling allowance (ms)
+\* one keepalive interval + scheduling allowance (ms).  The etcd client sends a lease's keepalive from a loop that wakes
+\* every 500 ms (client/v3 lease.go: sendKeepAliveLoop, retryConnWait), so its keepalives are ttl/3 .. ttl/3 + 500 ms apart.
+KBound == (ttl \div 3) + 700 + (IF backend = "etcd" THEN 500 ELSE 0)
 Lost == {c \in DOMAIN lostAt : lostAt[c] >= 0}
 
 TraceInit == l = 1 /\ backend = "" /\ ttl = 0 /\ inCS = {} /\ lostAt = NoLoss /\ told = {} /\ loss = FALSE
